@@ -309,6 +309,7 @@ func main() {
 	cli.Main(&cli.Property{
 		ID: "C05", Level: "model_checking", Scenarios: scenarios(), Parts: []*cli.Part{racePart()},
 		QuickBound: 2, ThoroughBound: 3, QuickUnbounded: true, ThoroughUnbounded: true, Cache: true, QuickSecs: 45, ThoroughSecs: 900,
+		RaceHB: &cli.RaceHB{QuickBound: 1, ThoroughBound: 2, ThoroughUnbounded: true},
 		Rule: "every interleaving with at most b preemptions (thorough: additionally all interleavings with state caching) of 2-4 threads issuing 1-2 operations each through two overlapping views of one store (mapdb and flushkv over mapdb); each complete execution's call/return history is checked with porcupine against the ordered-map model (committed batch = one atomic write per key inside the Commit interval, Iterate = atomic snapshot); distinct = distinct (outcome, observation log)",
 		Assumptions: []string{
 			"vsync/vatomic shims model sync faithfully (selftest); sequential consistency",
